@@ -161,6 +161,16 @@ theorem pure_calls_change_nothing (ops : List Op) (s : State) (c : Cell)
     obtain ⟨r, hr, _, hg⟩ := hpure op hop
     exact ⟨r, hr, Or.inr hg⟩
 
+/-- non-vacuity of `pure_calls_change_nothing`: `adc` then `collect_charge` on the caller's cells 0 and 1 — both rows of the generated
+table have no write site and do not use the global generator — leave cell 0 and the generator as they were -/
+example :
+    let a : Op := { fn := "detector.adc", bind := [("img", 0), ("gain", 1)], res := some 2, newVal := fun _ => 9, newRng := 5,
+                    newCoords := freshCoords, evict := fun _ => false, key := none }
+    let b : Op := { a with fn := "detector.collect_charge", bind := [("img", 0), ("qe", 1)], res := some 3 }
+    let s0 : State := { val := fun _ => 0, refs := fun _ => [], rng := 0, cache := fun _ => none }
+    (run Gen.effTable s0 [a, b]).val 0 = 0 ∧ (run Gen.effTable s0 [a, b]).rng = 0 := by
+  decide +kernel
+
 /-- the cached coordinate vectors always equal `arange(n) − ⌊n/2⌋`: nothing in the library writes them, so the invariant
 survives every history (lookups, insertions and evictions included) -/
 theorem cache_invariant (ops : List Op) (s : State) (hs : CacheOK s)
